@@ -186,9 +186,9 @@ def sync_atomics(ctx, t):
 
 
 def closure_sites(t):
-    """[(start, params_end, body_start, body_end, braced)] for closures of the form |a, b| ..."""
+    """[(start, params_end, body_start, body_end, braced, p1, p2)] for closures |a, b| .. and |a| .. (p2 = None)"""
     out = []
-    for m in re.finditer(r'\|(\w+), (\w+)\|\s*', t):
+    for m in re.finditer(r'(?<![|&])\|(\w+)(?:, (\w+))?\|\s*', t):
         j = m.end()
         if t[j] == '{':
             e = match_close(t, j)
@@ -222,7 +222,11 @@ def r14_closures(ctx, t, closure_specs):
     for site, spec in reversed(list(zip(sites, closure_specs))):
         s, pe, bs, be, braced, a, b = site
         body = t[bs:be] if braced else '{ ' + t[bs:be].strip() + ' }'
-        new = '|%s: u32, %s: u32| -> (b: bool)\n        ensures %s\n      %s' % (a, b, spec.strip(), body)
+        mm = re.match(r'\s*\[(.*?)\]\s*->\s*\((.*?)\)\s*:(.*)$', spec.strip(), re.S)
+        if mm:      # `[a: Option<Meta>] -> (h: Handle): ensures-expression`
+            new = '|%s| -> (%s)\n        ensures %s\n      %s' % (mm.group(1), mm.group(2), mm.group(3).strip(), body)
+        else:
+            new = '|%s: u32, %s: u32| -> (b: bool)\n        ensures %s\n      %s' % (a, b, spec.strip(), body)
         t = t[:s] + new + t[be:]
         ctx.hit('R14')
     return t
